@@ -757,8 +757,11 @@ where
         }
         if self.ax == self.adapters.len() {
             let res = self.next_inner().await;
-            if res.is_err() {
-                self.state = StreamState::Error;
+            match res {
+                // Direct stream: there is no adapter to make the transition to Done.
+                Ok(None) if self.adapters.is_empty() => self.state = StreamState::Done,
+                Err(_) => self.state = StreamState::Error,
+                _ => (),
             }
             return res;
         }
